@@ -101,6 +101,43 @@ contract('verif:contracts/harness.py::compute_then_partials', ['C26'], EQ_LEMMA_
                    ('d/dmult not scaled', ('deriv = lhs * _scale_factor', 'deriv = lhs'), 'post', EQ + '::EQConstraintComp.compute_partials')])
 
 
+# the same lemma for a component with TWO outputs, the first with a multiplier and the second without: nothing of the first
+# output's processing (its multiplier in particular) may leak into the partials of the second
+def eq2_self():
+    return Obj('EQConstraintComp', _output_vars=DictT({
+        'y': DictT({'lhs_name': 'lhs:y', 'rhs_name': 'rhs:y', 'mult_name': 'mult:y', 'normalize': OneOf(True, False), 'use_mult': True}),
+        'z': DictT({'lhs_name': 'lhs:z', 'rhs_name': 'rhs:z', 'mult_name': 'mult:z', 'normalize': OneOf(True, False), 'use_mult': False})}))
+
+
+def eq2_inputs(dtype='real'):
+    return DictT({'lhs:y': Arr('n', dtype=dtype), 'rhs:y': Arr('n', dtype=dtype), 'mult:y': Arr('n', dtype=dtype),
+                  'lhs:z': Arr('n', dtype=dtype), 'rhs:z': Arr('n', dtype=dtype)})
+
+
+def native_eq2(vals, np, om):
+    ov = vals['comp']['_output_vars']
+    comp = om.EQConstraintComp('y', normalize=bool(ov['y']['normalize']), use_mult=True, shape=(1,))
+    comp.add_eq_output('z', normalize=bool(ov['z']['normalize']), use_mult=False, shape=(1,))
+    kw = {'comp': comp}
+    for k in ('inputs', 'inputs_cs', 'outputs', 'partials'):
+        if k in vals:
+            kw[k] = _decode(vals[k], np)
+    n = len(kw['inputs']['rhs:y'])
+    h = 1e-40
+    return kw, dict(n=n, h=h, approx_h=lambda a, b: abs(a - b) <= 1e-9 * h * (1 + abs(a) / h + abs(b) / h))
+
+
+EQ2_LEMMA_PARAMS = dict(comp=eq2_self(), inputs_cs=eq2_inputs('complex'), inputs=eq2_inputs(),
+                        outputs=DictT({'y': Arr('n', dtype='complex'), 'z': Arr('n', dtype='complex')}), partials=DictT({}))
+contract('verif:contracts/harness.py::compute_then_partials', ['C26'], EQ2_LEMMA_PARAMS, sampler=dual_sampler(EQ2_LEMMA_PARAMS),
+         requires=real_parts(['lhs:y', 'rhs:y', 'mult:y', 'lhs:z', 'rhs:z']),
+         ensures=["all(approx_h(outputs['y'][i].imag, partials['y', 'lhs:y'][i] * %s + partials['y', 'rhs:y'][i] * %s + partials['y', 'mult:y'][i] * %s) for i in range(n))" % (D('lhs:y'), D('rhs:y'), D('mult:y')),
+                  "all(approx_h(outputs['z'][i].imag, partials['z', 'lhs:z'][i] * %s + partials['z', 'rhs:z'][i] * %s) for i in range(n))" % (D('lhs:z'), D('rhs:z'))],
+         modifies=["outputs['y']", "outputs['z']", 'partials'], inline={'compute', 'compute_partials', 'abs'}, defs=dict(DUAL, timeout_ms=40000), native=native_eq2,
+         name='lemma:EQConstraintComp partials are the derivative of compute (two outputs, multiplier on the first only)',
+         canaries=[('multiplier of the previous output carried into the next one', ("            else:\n                mult = 1.0\n", "            else:\n                pass\n"), 'post', EQ + '::EQConstraintComp.compute_partials')])
+
+
 # ---- BalanceComp: residual = (mult*lhs - rhs) / f_norm(rhs); jacobian of the residual -------------------------
 BAL = 'openmdao/components/balance_comp.py'
 
